@@ -70,10 +70,17 @@ Definition body_of (bodies : list (nat * list op)) (t : nat) : list op :=
 
 Definition dict_of (t : tree) : dict := match t with Node d => d | Leaf _ => [] end.
 
+(** the name every executed call was made as (the executor's expansion of the
+    requests: directly requested calls carry their name, pre/post tasks and the
+    implicitly chosen default task none) *)
+Definition call_names (c : case) : list (option string) :=
+  map snd (session_calls_split (c_reqs c) (c_dflt c) (c_dedupe c) (c_split c)).
+
 Definition spec (c : case) : bool :=
   match c_state c with
   | Ok s =>
-      spec_ok s (i_defaults (c_init c)) (i_overrides (c_init c)) (body_of (c_bodies c)) (c_envs c)
+      spec_ok_named s (i_defaults (c_init c)) (i_overrides (c_init c)) (body_of (c_bodies c)) (c_envs c)
+              (call_names c)
               (match c_obs c with
                | Ok (orecs, oer) =>
                    Ok (map (fun r : orec => let '(t, v0, outs, v1) := r in
@@ -100,7 +107,7 @@ Definition paths_fc19 (c : case) (s : coll) (recs : list C19Spec.brecord) : list
      | r :: rs', (_, called_as) :: cs' =>
          (match called_as with
           | None => Some [c_config s]
-          | Some _ => home s (fst (fst (fst r)))
+          | Some _ => call_path s (fst (fst (fst r))) called_as
           end) :: go rs' cs'
      | r :: rs', [] => home s (fst (fst (fst r))) :: go rs' []
      | [], _ => []
@@ -110,7 +117,7 @@ Definition adj (mw fc19 : bool) (c : case) : bool :=
   match c_state c with
   | Ok s =>
       spec_gen mw (if fc19 then paths_fc19 c s
-                   else map (fun r : C19Spec.brecord => home s (fst (fst (fst r)))))
+                   else fun recs => paths_by_name s recs (call_names c))
                s (i_defaults (c_init c)) (i_overrides (c_init c)) (body_of (c_bodies c)) (c_envs c)
                (obs_for_spec c)
   | Err _ => true
@@ -135,7 +142,7 @@ Definition adj_fc19c_gen (mw fc19 : bool) (c : case) : bool :=
           env_ambiguous (nub_paths (map fst (leaf_paths (Node v1)) ++
                                     flat_map (fun g => map fst (leaf_paths (Node g))) (all_configs s))) &&
           spec_gen mw (if fc19 then paths_fc19 c s
-                       else map (fun r : C19Spec.brecord => home s (fst (fst (fst r)))))
+                       else fun recs => paths_by_name s recs (call_names c))
                    s (i_defaults (c_init c)) (i_overrides (c_init c)) (body_of (c_bodies c)) (c_envs c)
                    (Ok (recs, None))
       end
